@@ -95,6 +95,7 @@ struct Ca {
     authzs: Vec<Authz>,
     certs: Vec<Vec<u8>>,
     issued_by_cert: HashMap<String, u64>,
+    leaf_cache: HashMap<String, Vec<u8>>,
     rng: Rng,
 }
 
@@ -216,6 +217,46 @@ impl Pki {
     }
 }
 
+/// The PEM blocks of a chain, each with its trailing newline.
+fn pem_blocks(pem: &[u8]) -> Vec<Vec<u8>> {
+    let text = String::from_utf8_lossy(pem).to_string();
+    let mut out = vec![];
+    let mut cur = String::new();
+    for line in text.split_inclusive('\n') {
+        cur.push_str(line);
+        if line.starts_with("-----END") {
+            out.push(cur.clone().into_bytes());
+            cur.clear();
+        }
+    }
+    out
+}
+
+/// The chain with the public key of its leaf made undecodable (first octet of the key bits changed); everything
+/// else, PEM framing and DER structure included, stays well formed.
+fn chain_with_bad_leaf_key(pem: &[u8]) -> Vec<u8> {
+    let blocks = pem_blocks(pem);
+    let Some(first) = blocks.first() else { return pem.to_vec() };
+    let Ok(leaf) = X509::from_pem(first) else { return pem.to_vec() };
+    let (Ok(mut der), Ok(spki)) = (leaf.to_der(), leaf.public_key().and_then(|k| k.public_key_to_der())) else { return pem.to_vec() };
+    let Some(raw) = spki_raw_key(&spki) else { return pem.to_vec() };
+    if let Some(pos) = der.windows(raw.len()).position(|w| w == &raw[..]) {
+        der[pos] ^= 0x01;
+    }
+    let b64 = openssl::base64::encode_block(&der);
+    let mut out = String::from("-----BEGIN CERTIFICATE-----\n");
+    for ch in b64.as_bytes().chunks(64) {
+        out.push_str(std::str::from_utf8(ch).unwrap());
+        out.push('\n');
+    }
+    out.push_str("-----END CERTIFICATE-----\n");
+    let mut v = out.into_bytes();
+    for b in blocks.iter().skip(1) {
+        v.extend_from_slice(b);
+    }
+    v
+}
+
 fn cfg_get<'a>(ca: &'a Ca, k: &str) -> Option<&'a Value> {
     ca.cfg.get(k).filter(|v| !v.is_null())
 }
@@ -267,6 +308,7 @@ fn ca_for<'a>(g: &'a mut Global, name: &str) -> &'a mut Ca {
                 authzs: vec![],
                 certs: vec![],
                 issued_by_cert: HashMap::new(),
+                leaf_cache: HashMap::new(),
                 rng: Rng(seed),
             },
         );
@@ -928,7 +970,18 @@ fn handle(g: &mut Global, req: &Request, t_recv: u64) -> Exchange {
         "acme_error" => {
             let ty = frule.get("type").and_then(|v| v.as_str());
             let st = frule.get("status").and_then(|v| v.as_u64()).unwrap_or(400) as u16;
-            Some(Some(problem(ty, st, "injected error")))
+            let mut pr = problem(ty, st, "injected error");
+            if let Some(sp) = frule.get("subproblems") {
+                if let Ok(mut v) = serde_json::from_slice::<Value>(&pr.body) {
+                    v["subproblems"] = sp.clone();
+                    pr.body = v.to_string().into_bytes();
+                }
+            }
+            // a front end appending its own page to the problem document
+            if let Some(t) = frule.get("trailing").and_then(|v| v.as_str()) {
+                pr.body.extend_from_slice(t.as_bytes());
+            }
+            Some(Some(pr))
         }
         "http_error_nonjson" => Some(Some(Response {
             status: frule.get("status").and_then(|v| v.as_u64()).unwrap_or(500) as u16,
@@ -1173,11 +1226,14 @@ fn handle(g: &mut Global, req: &Request, t_recv: u64) -> Exchange {
                             .map(String::from)
                             .unwrap_or_else(|| cfg_str(ca, "authz_status", "pending"));
                         // like Boulder: an authorization of this account for this identifier that is still pending is handed out again
-                        if cfg_bool(ca, "reuse_pending_authz", false) {
+                        let reuse_pending = cfg_bool(ca, "reuse_pending_authz", false);
+                        let reuse_valid = cfg_bool(ca, "reuse_valid_authz", false);
+                        if reuse_pending || reuse_valid {
                             let acc = j.account.unwrap_or(0);
                             let found = (0..ca.authzs.len()).find(|&i| {
                                 let a = &ca.authzs[i];
-                                a.status == "pending" && !a.posted && a.identifier_type == *t && a.identifier_value == val && a.wildcard == wildcard
+                                ((reuse_pending && a.status == "pending" && !a.posted) || (reuse_valid && a.status == "valid"))
+                                    && a.identifier_type == *t && a.identifier_value == val && a.wildcard == wildcard
                                     && ca.orders[a.order].account == acc
                             });
                             if let Some(i) = found {
@@ -1189,10 +1245,12 @@ fn handle(g: &mut Global, req: &Request, t_recv: u64) -> Exchange {
                             }
                         }
                         let tok_len = cfg_u64(ca, "token_len", 43) as usize;
+                        // a challenge of a pending authorization may already be "processing" (an earlier answer is still being looked at)
+                        let ch_status = cfg_get(ca, "challenge_status_by_id").and_then(|m| m.get(v)).and_then(|s| s.as_str()).map(String::from);
                         let challenges = types.iter().map(|ty| Chall {
                             ty: ty.clone(),
                             token: random_token(tok_len.max(1)),
-                            status: if status == "valid" { "valid".into() } else { "pending".into() },
+                            status: if status == "valid" { "valid".into() } else { ch_status.clone().unwrap_or_else(|| "pending".into()) },
                             posted: false,
                         }).collect();
                         azs.push(ca.authzs.len());
@@ -1351,7 +1409,23 @@ fn handle(g: &mut Global, req: &Request, t_recv: u64) -> Exchange {
                             let chain_len = cfg_cycle_i64(ca, "chain_lens", n, 2) as usize;
                             let lifetime = cfg_cycle_i64(ca, "lifetimes_s", n, 90 * 86400);
                             let skew = cfg_u64(ca, "not_before_skew_s", 60) as i64;
-                            let pem = pki.issue(&pk, &ca.orders[oi].identifiers, chain_len, lifetime, skew);
+                            let mut pem = pki.issue(&pk, &ca.orders[oi].identifiers, chain_len, lifetime, skew);
+                            // some CAs hand out the very same end-entity certificate again for an unchanged key and identifier set,
+                            // with whatever chain they serve that day
+                            if cfg_bool(ca, "same_leaf_for_same_key", false) {
+                                let ck = format!("{}|{:?}", info["spki_sha256"].as_str().unwrap_or(""), ca.orders[oi].identifiers);
+                                let blocks = pem_blocks(&pem);
+                                if let Some(old_leaf) = ca.leaf_cache.get(&ck) {
+                                    let mut v = old_leaf.clone();
+                                    for b in blocks.iter().skip(1) {
+                                        v.extend_from_slice(b);
+                                    }
+                                    pem = v;
+                                    extra["leaf_reused"] = json!(true);
+                                } else if let Some(l) = blocks.first() {
+                                    ca.leaf_cache.insert(ck, l.clone());
+                                }
+                            }
                             // layout of the PEM text served (all of them legal): cycled per issuance when a list is configured
                             let style = match cfg_get(ca, "pem_styles") {
                                 Some(Value::Array(a)) if !a.is_empty() => a[(n as usize) % a.len()].as_str().unwrap_or("canonical").to_string(),
@@ -1439,10 +1513,23 @@ fn handle(g: &mut Global, req: &Request, t_recv: u64) -> Exchange {
                     // the leaf is complete, the last certificate of the chain is cut
                     "truncated-tail" => r.body[..r.body.len() - 200.min(r.body.len() / 4)].to_vec(),
                     "html" => b"<html>not a certificate</html>".to_vec(),
+                    // complete, parseable chains that a client must still refuse: issuer first, leaf moved to the end,
+                    // leaf whose public key cannot be decoded
+                    "reversed-chain" => { let mut b = pem_blocks(&r.body); b.reverse(); b.concat() }
+                    "rotated-chain" => { let mut b = pem_blocks(&r.body); if b.len() > 1 { let l = b.remove(0); b.push(l); } b.concat() }
+                    "leaf-bad-pubkey" => chain_with_bad_leaf_key(&r.body),
                     _ => b"-----BEGIN CERTIFICATE-----\nnot base64 at all !!!\n-----END CERTIFICATE-----\n".to_vec(),
                 };
             }
             "close_mid_body" => truncate = Some(r.body.len() / 2),
+            // the normal answer, with extra headers (e.g. Retry-After on a polling answer)
+            "add_headers" => {
+                if let Some(h) = frule.get("headers").and_then(|v| v.as_object()) {
+                    for (k, v) in h {
+                        r.headers.push((k.clone(), v.as_str().map(|x| x.to_string()).unwrap_or_else(|| v.to_string())));
+                    }
+                }
+            }
             _ => {}
         }
     }
